@@ -53,6 +53,7 @@ def spec(cols, label, heur, target_only):
 
 def drive(cr, cols, label, heur, target_only, cap):
     import pandas as pd
+    PL.fresh_state()
     cr.GLOBAL_PRIOR_COMB_COUNTS.clear()
     df = pd.DataFrame({c: ['u', 'v', 'u'] if i % 2 else ['p', 'p', 'q'] for i, c in enumerate(cols)})
     args = types.SimpleNamespace(heuristic=heur, label_column=label, target_ranking_only='True' if target_only else 'False', combination_number_upper_bound=cap,
